@@ -120,7 +120,11 @@ ATTR_SRC = [' id=x', ' class="a b"', " title='q'", ' href="http://e/x?a=1&b=2"',
             ' onclick="x"', ' definitionurl=x', ' x="&amp;&lt;"', ' src=javascript:1',
             # values that stay unquoted in legacy/spec mode and contain an ampersand / look like references after one decoding
             ' title=a&amp;b', ' href=&amp;#106;avascript:alert(1)', ' alt=&amp;', ' src=&amp;#x6a;avascript&amp;colon;1', ' y=&amp;amp;',
-            ' z=x&amp;copy', ' title=\u00c9COLE', ' alt=\u00dcber=1']
+            ' z=x&amp;copy', ' title=\u00c9COLE', ' alt=\u00dcber=1',
+            # one unparseable URL next to other URI attributes on the same tag
+            ' href="http://[/" cite="javascript:alert(1)" longdesc="javascript:alert(1)" src="javascript:x"',
+            ' cite="h://]" href="javascript:alert(1)" longdesc="javascript:alert(1)" poster="javascript:x"',
+            ' longdesc="http://[/" href="javascript:alert(1)" cite="javascript:alert(1)" action="javascript:x"']
 TEXT_SRC = ["x", "hello world", " ", "\n", "  \t\n ", "&amp;", "&lt;b&gt;", "&notit;", "&#x41;", "&#0;", "&#x80;", "&bogus;", "&",
             "<", ">", "a &#32; b", "é", "\U0001F600", "\x00", "--", "]]>", "\x0c", "=\"'`",
             "\u00a0x", "y\u00a0", "\u2003", "&nbsp; z &nbsp;", "\u3000w\u000b", "\x1c"]
